@@ -405,11 +405,30 @@ func Bin(op string, a, b *Term, signed bool) *Term {
 	case "&^":
 		return mk("bvand", w, a, mk("bvnot", w, b))
 	case "/":
+		if b.IsConst() && b.val != 0 && b.val&(b.val-1) == 0 && sext(b.val, w) > 0 {
+			// division by a power of two: exact shift identities (solvers decide shifts far faster than bvsdiv)
+			n := uint64(0)
+			for (uint64(1) << n) != b.val {
+				n++
+			}
+			if n == 0 {
+				return a
+			}
+			if !signed {
+				return mk("bvlshr", w, a, Const(w, n))
+			}
+			// round toward zero: (a + ((a >>s (w-1)) & (2^n-1))) >>s n
+			bias := mk("bvand", w, mk("bvashr", w, a, Const(w, uint64(w-1))), Const(w, b.val-1))
+			return mk("bvashr", w, mk("bvadd", w, a, bias), Const(w, n))
+		}
 		if signed {
 			return mk("bvsdiv", w, a, b)
 		}
 		return mk("bvudiv", w, a, b)
 	case "%":
+		if !signed && b.IsConst() && b.val != 0 && b.val&(b.val-1) == 0 {
+			return Bin("&", a, Const(w, b.val-1), false)
+		}
 		if signed {
 			return mk("bvsrem", w, a, b)
 		}
